@@ -6,14 +6,15 @@ P pending contents of the account) on the real
     pytezos.operation.group:OperationGroup.fill / autofill / sign / inject / send
 The property is the postcondition of the injection call:
     every group handed to the node's injection RPC carries the counters  C+P+1 .. C+P+k.
-Covered sequences (precisely): every well-formed sequence over {N1,N2,N3,F,A,S,I+,I-,X+,X-,B} acting on
+Covered sequences (precisely): every well-formed sequence over {N1,N2,N3,F,A,S,I+,I-,X+,X-,B} (additional shorter runs: reveal groups NR,
+asynchronous injections J+,J-,Y+,Y- = inject(prevalidate=False) / send_async(counter=next), see bounded/C25_client.py) acting on
 the current group of ONE account (see bounded/C25_client.py for the requires of each call), started from
 every (node counter, initial mempool, client prelude) configuration.  Not demanded: that fill/autofill/send
 succeed (they may raise RpcError when the node's simulation refuses a counter), fees/limits, the node's
 verdict on the injection (chosen by the scenario), interleavings of several live groups, explicit
 `counter=` overrides (manual handling is the caller's responsibility by the API text).
-R mode, bounded; no P part (PyVC is not applied here: the three-line allocator methods are checked by the
-run-time contracts on every call instead).
+P part: props/C25_P.py (allocator get_counter / set_counter / reset from ANY cache state, and get_counter_offset over a mempool
+whose contents have symbolic sources in every section).  R part: this file.
 """
 from __future__ import annotations
 
@@ -60,6 +61,17 @@ def _unit_offset_contract(ck):
         'unprocessed-pair-layout': (dict(applied=[], unprocessed=[['oHash', me(2)]]), 2),
         'refused-not-counted': (dict(applied=[me(1)], refused=[me(3)], outdated=[me(1)], unprocessed=[]), 1),
         'contentless-entry': (dict(applied=[dict(hash='x', branch='B')], unprocessed=[]), 0),
+        # widened: the sections that do NOT hold pending operations of the current branch, larger and interleaved mempools,
+        # both layouts of `unprocessed`, contents without a source
+        'branch_delayed-not-counted': (dict(applied=[me(1)], branch_delayed=[me(2)], unprocessed=[]), 1),
+        'branch_refused-not-counted': (dict(applied=[], branch_refused=[me(2)], unprocessed=[me(1)]), 1),
+        'only-non-pending-sections': (dict(applied=[], refused=[me(1)], outdated=[me(1)], branch_refused=[me(1)], branch_delayed=[me(3)], unprocessed=[]), 0),
+        'unprocessed-dict-layout': (dict(applied=[], unprocessed=[me(3), other]), 3),
+        'many-interleaved': (dict(applied=[other, me(1), mixed, other, me(3), me(2)], unprocessed=[['oHash', other], ['oHash2', me(2)], me(1)]), 10),
+        'source-less-contents': (dict(applied=[dict(hash='o4', branch='B', contents=[dict(kind='endorsement', level=1), dict(kind='transaction', source=pkh, counter='1')])],
+                                      unprocessed=[]), 1),
+        'applied-only-key': (dict(applied=[me(2)]), 2),
+        'unprocessed-only-key': (dict(unprocessed=[me(2)]), 2),
     }
 
     class _Q:
@@ -138,7 +150,24 @@ def run(ck: Check) -> int:
     cfgs = [c for c in H.configs() if ck.thorough() or (c[0] == 126 and (c[1], c[2]) in quick_cfgs)]
     seqs = [s for s in H.sequences(L) if len(s) == L]
     tasks = [(cfg, ch) for cfg in cfgs for ch in _chunks(seqs, 400)]
-    extra = []
+    # additional runs (widening audit): (i) node counter 0 - an account that never sent anything - and a counter of many digits, which
+    # the quick tier did not contain, over all sequences of length L-1; (ii) groups  reveal + transaction  (alphabet SYMS_REVEAL):
+    # every manager content takes a counter, also under a non-empty mempool
+    short = [q for q in H.sequences(L - 1) if len(q) == L - 1]
+    rev = [q for q in H.sequences(L, H.SYMS_REVEAL) if len(q) == L]
+    extra = [(cfg, ch) for cfg in H.EXTRA_CONFIGS for ch in _chunks(short, 400)]
+    extra += [(cfg, ch) for cfg in H.REVEAL_CONFIGS for ch in _chunks(rev, 400)]
+    # (iii) MIXED injection entry points on one shared context (alphabet SYMS_ASYNC): inject(prevalidate=False) and send_async(counter=
+    # the account's next counter) next to inject() / send(); only the sequences that contain one of them (the others are in the main run)
+    asy_short = [q for q in H.sequences(L - 1, H.SYMS_ASYNC) if len(q) == L - 1 and any(x[0] in 'JY' for x in q)]
+    asy_long = [q for q in H.sequences(L, H.SYMS_ASYNC) if len(q) == L and any(x[0] in 'JY' for x in q)]
+    extra += [(cfg, ch) for cfg in H.ASYNC_CONFIGS[1:] for ch in _chunks(asy_short, 400)]
+    extra += [(H.ASYNC_CONFIGS[0], ch) for ch in _chunks(asy_long, 400)]
+    ck.bound('additional_runs_async', dict(alphabet=H.SYMS_ASYNC, configs=[list(c) for c in H.ASYNC_CONFIGS],
+                                           sequence_length={str(list(H.ASYNC_CONFIGS[0])): L, 'others': L - 1},
+                                           note='send_async without an explicit counter is fill() without the mempool offset (the fill-only path of the known finding) and is not enumerated'))
+    ck.bound('additional_runs', dict(configs_with_other_node_counters=[list(c) for c in H.EXTRA_CONFIGS], their_sequence_length=L - 1,
+                                     reveal_group_alphabet=H.SYMS_REVEAL, reveal_configs=[list(c) for c in H.REVEAL_CONFIGS], reveal_sequence_length=L))
     procs = min(16, os.cpu_count() or 4)
     total = inj = rpc_raised = 0
     groups = {}
@@ -162,7 +191,7 @@ def run(ck: Check) -> int:
     ck.evaluate(None, sample=dict(config=[126, 'p3', 'after-refused'], calls=['N2', 'A', 'S', 'I+', 'B'],
                                   note='prelude N1 A S I- runs first; injected counters 130,131 = 126 + 3 pending + 1..2'), n=0)
     ck.note(f'{len(seqs)} sequences of length {L} x {len(cfgs)} configurations'
-            + (f' + {sum(len(t[1]) for t in extra)} runs of length 7' if extra else '')
+            + (f' + {sum(len(t[1]) for t in extra)} additional runs (other node counters, reveal groups)' if extra else '')
             + f'; {inj} injection calls observed; {rpc_raised} fill/autofill/send calls refused by the simulated node (allowed)')
     if inj == 0 and not groups:
         raise RuntimeError('no injection call was observed: vacuous run')
